@@ -137,6 +137,13 @@ def v3_data_mutations(rng, key, frame: bytes, full=False):
         out.append(v3_enc_custom(key, rb(rng, 3), 7, padnib=nib))
     for t in (0, 1, 2, 6, 15):
         out.append(v3_enc_custom(key, inner, 7, typ=t))
+    for ctr in (0, 1, 0x0FFF, 0x1000, 0x7FFF, 0x8000, 0xFFFE, 0xFFFF):       # authentic responses whose counter field sits at a boundary (the next exchange follows on the same connection)
+        out.append(landev.v3_enc_packet(key, inner, ctr))
+    for size in range(0, 50):                                                 # every short well-framed "encrypted response": total length 8..57
+        out.append(b"\x83\x70" + size.to_bytes(2, "big") + b"\x20\x03" + rb(rng, size + 2))
+    for typ in (0, 1, 2, 6, 15):
+        for size in (0, 1, 14, 24, 30, 31, 32, 33):
+            out.append(b"\x83\x70" + size.to_bytes(2, "big") + b"\x20" + bytes([typ]) + rb(rng, size + 2))
     out.append(v3_enc_custom(key, inner, 7, tagflip=True))
     out.append(landev.v3_enc_packet(rb(rng, 32), inner, 7))                  # under another key
     for m in v2_mutations(rng, frame, full):                                 # every V2 mutation wrapped in a valid encrypted packet
@@ -190,6 +197,10 @@ def batch(ver, phase, muts, *, seed, target="lan", level="lan"):
     """One client, a series of adversarial replies at one phase; a prompt exchange after each (recovery is C08's business,
     here it only brings the client back to a defined phase)."""
     s = sched.Session(version=ver, retries=3, seed=seed, target=target, ac=acdev.ACModel() if target == "ac" else None)
+    if ver == 3 and phase != "hs":
+        # the appliance's random value is its own choice: all zero, so that the session key is the configured key and the crafted packets of
+        # v3_data_mutations (built under that key) are packets of THIS session - what follows the tag check is reached, not only the tag check
+        s.dev.nonce_hook = lambda nonce: bytes(32)
     n = 0
     try:
         for m in muts:
@@ -315,6 +326,75 @@ def hangup_runs(ctx: Ctx):
     return runs
 
 
+class _Scripted(acdev.ACModel):
+    """An appliance whose answer to the n-th request of an operation is replaced by scripted frames (valid transport, adversarial frames)."""
+
+    def __init__(self, **kw):
+        super().__init__(**kw)
+        self.script = {}          # request index within the operation -> list of frames
+        self.count = 0
+
+    def handle(self, f):
+        normal = super().handle(f)
+        k = self.count
+        self.count += 1
+        return self.script.get(k, normal)
+
+
+def frame_catalogue(rng):
+    """Well-formed frames in the wrong place / of the wrong type, and frames broken below the transport layer."""
+    caps = bytes([0xB5, 2, 0x14, 0x02, 1, 0, 0x10, 0x02, 1, 1, 0, 0])
+    state = acdev.encode_state(acdev.DEFAULT_STATE)
+    props = bytes([0xB1, 1, 0x09, 0x00, 0x00, 1, 0x00])
+    out = []
+    for body in (caps, state, props, bytes([0xB0, 0]), bytes([0xC1, 0x21, 0x01, 0x44] + [0] * 16), bytes([0xB5]), bytes([0xB5, 9]), bytes([0xB5, 1, 0x14]),
+                 bytes([0xB1]), bytes([0xB1, 3]), bytes([0xC0]), bytes([0xC0, 1, 2]), b"", rb(rng, 1), rb(rng, 7), rb(rng, 30)):
+        for ftype in (2, 3, 4, 5, 6, 0xA0):
+            out.append([acdev.resp_frame(ftype, body)])
+    good = acdev.resp_frame(3, caps)
+    out += [[good[:-1] + bytes([good[-1] ^ 1])], [good[:-2] + bytes([good[-2] ^ 1, good[-1]])], [good[:5]], [b"\xaa"], [bytes([0xAA, 200]) + good[2:]], [good, good], [good, acdev.resp_frame(5, caps)]]
+    return out
+
+
+def frame_level_runs(ctx: Ctx):
+    """Device-level operations against an appliance that answers one of the operation's requests with frames of the wrong kind / type or broken
+    frames (the transport delivers them intact): no operation raises."""
+    rng = ctx.rng
+    cat = frame_catalogue(rng)
+    ops = ["get_capabilities", "refresh", "apply", "toggle_display", "start_self_clean"]
+    runs = []
+    k = 0
+    for ver in (2, 3):
+        for op in ops:
+            for pos in (0, 1, 2):
+                picks = cat if not ctx.quick else rng.sample(cat, 26)
+                for ch in chunks(picks, 13):
+                    k += 1
+                    ac = _Scripted(caps_pages=[bytes([0xB5, 2, 0x14, 0x02, 1, 0, 0x10, 0x02, 1, 1, 1, 0]), bytes([0xB5, 1, 0x12, 0x02, 1, 1, 0, 0])],
+                                   props={0x09: b"\x00", 0x0A: b"\x00", 0x42: b"\x01"})
+                    s = sched.Session(version=ver, retries=3, seed=ctx.seed * 31 + k, target="ac", ac=ac)
+                    n = 0
+                    try:
+                        if ver == 3:
+                            s.call_auth("good", level="dev")
+                            s.settle()
+                        for frames in ch:
+                            ac.count = 0
+                            ac.script = {pos: frames}
+                            s.call_op(op)
+                            s.settle()
+                            ac.script = {}
+                            if n % 4 == 3:
+                                s.call_op("get_capabilities")       # a sane exchange in between: later operations run on an object that has learned capabilities
+                                s.settle()
+                            n += 1
+                    finally:
+                        s.close()
+                    runs.append({"events": s.trace, "steps": s.steps, "ver": ver, "phase": f"frames:{op}:{pos}", "target": "ac", "level": "dev" if ver == 3 else "lan", "n": n,
+                                 "muts": [b"".join(fs).hex() for fs in ch]})
+    return runs
+
+
 def rehandshake_runs(ctx: Ctx):
     """Re-authentication of a session that already holds a key (explicitly, or by a send after the 12 h expiry) answered with wrong-phase traffic that
     is perfectly valid under the CURRENT session key: encrypted responses with payloads of every short length, a handshake reply under the session key."""
@@ -405,7 +485,7 @@ def collect(ctx: Ctx):
                 runs.append(r)
                 for m in ch:
                     ctx.count_distinct((ver, phase, target, m))
-    extra = hangup_runs(ctx) + rehandshake_runs(ctx)
+    extra = hangup_runs(ctx) + rehandshake_runs(ctx) + frame_level_runs(ctx)
     for j, r in enumerate(extra):
         ctx.count_distinct((r["ver"], r["phase"], r["target"], j))
     return runs + extra
